@@ -391,4 +391,27 @@ def estimate_opts(tier='quick', seed=0):
         for i, d in enumerate('xyz'):
             if nodes[i][0] > pts[:, i].min() or nodes[i][-1] < pts[:, i].max():
                 return fail(clause=f'mesh built from the estimated options does not cover the survey in {d}')
+        # distance AND vector for the same direction (documented priority: domain > distance > vector): the survey domain is centre -/+ distance,
+        # the vector only contributes nodes; the mesh covers that domain plus the buffer
+        if k < 3:
+            n += 1
+            dist = {'x': [0.6 * sum(h[0]), 0.9 * sum(h[0])], 'y': None, 'z': [0.5 * sum(h[2]), 0.1 * sum(h[2])]}
+            vec = {'x': np.linspace(-150.0, 150.0, 7), 'y': None, 'z': np.linspace(-0.3 * sum(h[2]) - 100, -0.3 * sum(h[2]) + 100, 5)}
+            gv = dict(given, distance=dist, vector=vec, center=(0.0, 0.0, -0.3 * sum(h[2])), max_buffer=60.0)      # (small buffer: coverage must come from the domain)
+            try:
+                g2 = emg3d.meshes.estimate_gridding_opts(dict(gv), model, survey)
+                with warnings.catch_warnings():
+                    warnings.simplefilter('ignore')
+                    mesh2 = emg3d.construct_mesh(**g2)
+            except RuntimeError:
+                continue
+            except Exception as e:
+                return fail(clause='estimate_gridding_opts / construct_mesh raised for distance and vector given for the same direction', exception=f'{type(e).__name__}: {e}')
+            for i, d in ((0, 'x'), (2, 'z')):
+                c_ = gv['center'][i]
+                nodes_d = [mesh2.nodes_x, mesh2.nodes_y, mesh2.nodes_z][i]
+                lo, hi = c_ - dist[d][0], c_ + dist[d][1]
+                if nodes_d[0] > lo + 1e-6 or nodes_d[-1] < hi - 1e-6:
+                    return fail(clause=f'distance and vector given for direction {d}: the mesh does not cover centre -/+ distance (the vector must not replace the requested survey domain)',
+                                mesh=[float(nodes_d[0]), float(nodes_d[-1])], requested_domain=[float(lo), float(hi)], vector=[float(vec[d].min()), float(vec[d].max())])
     return dict(reproduced=False, cases=n)
